@@ -1671,3 +1671,120 @@ Proof.
     - eapply IH; eauto. intros y Hy. apply Hm. right. exact Hy. }
   eapply G; eauto.
 Qed.
+(** ** completeness of [chk_wfmap]: it decides well-formedness *)
+Section ChkComplete.
+  Variable inst : instr -> option (list instr * calsrc).
+
+  Lemma calsrc_eqb_refl s : calsrc_eqb s s = true.
+  Proof. apply calsrc_eqb_spec. reflexivity. Qed.
+
+  Lemma chk_complete_mut :
+    (forall srcl outl ns c e ns' c', WFentry inst srcl outl ns c e ns' c' ->
+       chk_entry inst srcl outl (ns, c) e = Some (ns', c')) /\
+    (forall srcl outl ns c es ns' c', WFwalk inst srcl outl ns c es ns' c' ->
+       chk_walk inst srcl outl es (ns, c) = Some (ns', c')).
+  Proof.
+    split.
+    - apply (WFentry_mind inst
+               (fun srcl outl ns c e ns' c' _ => chk_entry inst srcl outl (ns, c) e = Some (ns', c'))
+               (fun srcl outl ns c es ns' c' _ => chk_walk inst srcl outl es (ns, c) = Some (ns', c'))).
+      + intros srcl outl ns c s x Hns Hx Hy. cbn [chk_entry].
+        apply N.leb_le in Hns. rewrite Hns, N.eqb_refl. cbn [andb]. rewrite Hx, Hy, instr_eqb_refl. reflexivity.
+      + intros srcl outl ns c s src hi sub x body nsb Hns Hc Hhi Hx Hi _ IH. cbn [chk_entry].
+        apply N.leb_le in Hns, Hc, Hhi. rewrite Hns, N.eqb_refl, Hc, Hhi. cbn [andb].
+        rewrite Hx, Hi, calsrc_eqb_refl, inner_walk_eq, IH, N.eqb_refl. reflexivity.
+      + reflexivity.
+      + intros srcl outl ns c e r ns1 c1 ns' c' _ He _ Hr. cbn [chk_walk]. rewrite He. exact Hr.
+    - apply (WFwalk_mind inst
+               (fun srcl outl ns c e ns' c' _ => chk_entry inst srcl outl (ns, c) e = Some (ns', c'))
+               (fun srcl outl ns c es ns' c' _ => chk_walk inst srcl outl es (ns, c) = Some (ns', c'))).
+      + intros srcl outl ns c s x Hns Hx Hy. cbn [chk_entry].
+        apply N.leb_le in Hns. rewrite Hns, N.eqb_refl. cbn [andb]. rewrite Hx, Hy, instr_eqb_refl. reflexivity.
+      + intros srcl outl ns c s src hi sub x body nsb Hns Hc Hhi Hx Hi _ IH. cbn [chk_entry].
+        apply N.leb_le in Hns, Hc, Hhi. rewrite Hns, N.eqb_refl, Hc, Hhi. cbn [andb].
+        rewrite Hx, Hi, calsrc_eqb_refl, inner_walk_eq, IH, N.eqb_refl. reflexivity.
+      + reflexivity.
+      + intros srcl outl ns c e r ns1 c1 ns' c' _ He _ Hr. cbn [chk_walk]. rewrite He. exact Hr.
+  Qed.
+
+  Theorem chk_wfmap_complete src out m : WFmap inst src out m -> chk_wfmap inst src out m = true.
+  Proof.
+    intros [ns H]. unfold chk_wfmap. rewrite (proj2 chk_complete_mut _ _ _ _ _ _ _ H). apply N.eqb_refl.
+  Qed.
+
+  Theorem chk_wfmap_iff src out m : chk_wfmap inst src out m = true <-> WFmap inst src out m.
+  Proof. split; [apply chk_wfmap_sound | apply chk_wfmap_complete]. Qed.
+End ChkComplete.
+
+(** ** a syntactic sufficient condition for the restricted theorem: no calibration body contains a
+    DECLARE and neither does the source body *)
+Definition cals_no_declare (cs : cals) : bool :=
+  forallb (fun c => forallb not_hoisted (gc_body c)) (gcals cs) &&
+  forallb (fun c => forallb not_hoisted (mc_body c)) (mcals cs).
+
+Lemma subst_hoisted fq fe i : hoisted (subst_exprs fe (subst_qubits fq i)) = hoisted i.
+Proof.
+  destruct i as [nm ps qs|mn q t|[q|]|qs|qs fs d|b f w|b f m w|b f d m|k f e|f g|d s|d s o|nm ty ln|nm args data|k];
+    reflexivity.
+Qed.
+
+Lemma retarget_hoisted f t i : hoisted (retarget f t i) = hoisted i.
+Proof.
+  destruct i; cbn; try reflexivity.
+  - destruct t, f; try reflexivity. destruct (N.eqb (fst m) n); reflexivity.
+  - destruct (N.eqb nm load_memory && option_eqb pdata_eqb data (option_map PName f)); [destruct t|]; reflexivity.
+Qed.
+
+Lemma subst_qubits_hoisted fq i : hoisted (subst_qubits fq i) = hoisted i.
+Proof.
+  destruct i as [nm ps qs|mn q t|[q|]|qs|qs fs d|b f w|b f m w|b f d m|k f e|f g|d s|d s o|nm ty ln|nm args data|k];
+    reflexivity.
+Qed.
+
+Lemma instantiate_no_declare cs i body src :
+  cals_no_declare cs = true -> instantiate cs i = Some (body, src) ->
+  forall j, In j body -> not_hoisted j = true.
+Proof.
+  unfold cals_no_declare. rewrite andb_true_iff. intros [Hg Hm] Hi.
+  rewrite forallb_forall in Hg, Hm. destruct i; cbn in Hi; try discriminate.
+  - destruct (gate_match (gcals cs) nm ps qs) as [c|] eqn:E; [|discriminate]. inversion Hi; subst.
+    apply gate_match_in in E. destruct E as [Hin _]. specialize (Hg c Hin). rewrite forallb_forall in Hg.
+    intros j Hj. unfold subst_gate in Hj. apply in_map_iff in Hj. destruct Hj as [b [<- Hb]].
+    unfold not_hoisted. rewrite subst_hoisted. apply Hg. exact Hb.
+  - destruct (meas_match (mcals cs) mn q t) as [c|] eqn:E; [|discriminate]. inversion Hi; subst.
+    apply meas_match_applicable in E. destruct E as [Hin _]. specialize (Hm c Hin). rewrite forallb_forall in Hm.
+    intros j Hj. unfold subst_meas in Hj. apply in_map_iff in Hj. destruct Hj as [b [<- Hb]].
+    unfold not_hoisted. rewrite retarget_hoisted, subst_qubits_hoisted. apply Hm. exact Hb.
+Qed.
+
+Lemma Expands_no_declare_mut cs :
+  cals_no_declare cs = true ->
+  (forall path i r, Expands (instantiate cs) path i r ->
+     forall out, r = Some out -> forall j, In j out -> not_hoisted j = true) /\
+  (forall path l out, ExpandsList (instantiate cs) path l out ->
+     (forall j, In j l -> not_hoisted j = true) -> forall j, In j out -> not_hoisted j = true).
+Proof.
+  intro Hc. apply Expands_mutind.
+  - intros; discriminate.
+  - intros path i body src out _ Hi _ IH out' E j Hj. inversion E; subst.
+    apply IH; auto. eapply instantiate_no_declare; eauto.
+  - intros path _ j [].
+  - intros path j t r _ _ _ IH Hl x [<-|Hx]; [apply Hl; left; reflexivity|].
+    apply IH; auto. intros y Hy. apply Hl. right. exact Hy.
+  - intros path j o t r _ IH1 _ IH2 Hl x Hx. apply in_app_or in Hx. destruct Hx as [Hx|Hx].
+    + eapply IH1; eauto.
+    + apply IH2; auto. intros y Hy. apply Hl. right. exact Hy.
+Qed.
+
+Lemma no_declare_no_hoist cs fuel src :
+  cals_no_declare cs = true -> forallb not_hoisted src = true ->
+  no_hoist_b (instantiate cs) fuel src = true.
+Proof.
+  intros Hc Hs. unfold no_hoist_b. apply forallb_forall. intros i Hi.
+  rewrite forallb_forall in Hs. rewrite (Hs i Hi). cbn [andb].
+  destruct (expand_d (instantiate cs) fuel [] i) as [[[o d]|]| |] eqn:Hd; try reflexivity.
+  apply forallb_forall. intros j Hj.
+  assert (He : expand (instantiate cs) fuel [] i = Ok (Some o)).
+  { rewrite <- expand_d_sim, Hd. reflexivity. }
+  apply expand_sound in He. eapply (proj1 (Expands_no_declare_mut cs Hc)); eauto.
+Qed.
